@@ -13,7 +13,7 @@ def check(ctx):
         "child's parent); R5 the traceparent decoder never turns a parsed value into a None result (every id an "
         "extracted context can carry survives encode -> decode); R6 setting a span as local parent opens a scope on every path, "
         "also for a span of an unsampled trace (current_local_parent() must answer that span with sampled = false, not the "
-        "enclosing scope's parent).")
+        "enclosing scope's parent). R2 also: the two token derivations use no selecting / reordering iterator adaptor; R7 the scope stack is only accessed from its top (the innermost scope answers).")
     ctx.explanation += (" R8 the scope bundle (C10's rules): scopes opened on every path and refused only when the stack is full, released "
                         "scopes popped with nothing left behind, the stack looked at from its top only and the only per-thread context.")
     ctx.not_decided = ("that the delivered child record carries that parent for every program point (composition of "
